@@ -45,6 +45,11 @@ def make_case(rc):
     elif kind == 'criterion':
         cells = {'A1': 'x', 'A2': 'y', 'B1': '=COUNTIFS(A1:A2,"%s")' % text}
         uid = '_0_1_0'
+    elif kind in ('concat', 'concat_fn', 'concat_cell'):
+        t2 = rc['text2']
+        f = {'concat': '="%s"&"%s"', 'concat_fn': '=CONCATENATE("%s","%s")', 'concat_cell': '="%s"&B1&"%s"'}[kind] % (text, t2)
+        cells = {'A1': f, 'B1': 'mid'}
+        uid = '_0_0_0'
     else:
         raise ValueError(kind)
     fail = None
@@ -67,6 +72,9 @@ def make_case(rc):
                 tree = ast.parse(src)
             except SyntaxError:
                 tree = None      # not loadable: nothing can execute (C06 decides loadability)
+                if kind.startswith('concat'):
+                    fail = 'the module generated for two joined string literals cannot be loaded (SyntaxError)'
+
             if tree is not None:
                 if 'zzcanary' in idents(tree):
                     fail = 'the generated module contains the workbook identifier zzcanary as executable code'
@@ -81,6 +89,10 @@ def make_case(rc):
                             fail = 'code taken from the workbook was executed while loading / evaluating the class'
                         elif kind == 'constant' and got != ('ok', text):
                             fail = 'the constant text %r evaluates to %r' % (text, got)
+                        elif kind in ('concat', 'concat_fn') and got != ('ok', text + rc['text2']):
+                            fail = 'the joined literals %r and %r evaluate to %r' % (text, rc['text2'], got)
+                        elif kind == 'concat_cell' and got != ('ok', text + 'mid' + rc['text2']):
+                            fail = 'the joined literals %r & cell & %r evaluate to %r' % (text, rc['text2'], got)
                         elif list(cls().get_titles()) != [title]:
                             fail = 'sheet title %r reported as %r' % (title, list(cls().get_titles()))
                     except Exception as ex:  # noqa
@@ -90,7 +102,7 @@ def make_case(rc):
         if hasattr(builtins, 'zzcanary'):
             del builtins.zzcanary
     k = 'KConstant' if kind == 'constant' else 'KFormulaText'
-    if kind == 'criterion':
+    if kind == 'criterion' or kind.startswith('concat'):
         return {'recipe': rc, 'coq': None, 'vcoq': None, 'key': rc, 'nontrivial': True, 'oracle_fail': fail}
     coq = 'CT %s %s %s %s' % (k, C.cstr(text), 'None' if impl is None else '(Some %s)' % C.cstr(impl), C.cbool(fail is None))
     nt = any(ch in text for ch in '\'"\\\n?*')
@@ -104,6 +116,8 @@ def corpus():
     rs = [{'kind': 'formula', 'text': "'+zzcanary(1)+'"}, {'kind': 'formula', 'text': "it's"}, {'kind': 'formula', 'text': 'a\\b'}, {'kind': 'formula', 'text': 'a\nb'},
           {'kind': 'constant', 'text': "'+zzcanary(1)+'"}, {'kind': 'constant', 'text': '"""+zzcanary(1)+"""'}, {'kind': 'constant', 'text': 'x\ny\\'},
           {'kind': 'constant', 'text': 'x', 'title': "Data\nzzcanary(1)"}, {'kind': 'constant', 'text': 'x', 'title': "a'b\"c\\"}, {'kind': 'constant', 'text': '{titles}{0}'},
+          {'kind': 'concat', 'text': 'a', 'text2': "it's"}, {'kind': 'concat', 'text': "it's", 'text2': ' ok'}, {'kind': 'concat', 'text': 'a', 'text2': "'+str(zzcanary(1))+'x'#"},
+          {'kind': 'concat_fn', 'text': "x'", 'text2': "'+zzcanary(1)+'"}, {'kind': 'concat_cell', 'text': "it's", 'text2': "\\"}, {'kind': 'concat', 'text': '', 'text2': "'"},
           {'kind': 'criterion', 'text': ">7 or (zzcanary)(1)"}, {'kind': 'criterion', 'text': ">7"}, {'kind': 'criterion', 'text': "x')+zzcanary(1)+('"}]
     rs += [x['witness'] for x in C.known_findings()['findings'] if x['property'] == 'C07']
     return rs
@@ -111,7 +125,7 @@ def corpus():
 
 def run(R, tier):
     R.coverage['rule'] = ('strings over an alphabet with quotes, backslash, newline, # { } % ( ) ? * ~ and Python call syntax (a canary call zzcanary(1) '
-                          'planted in builtins), placed in constant cells, formula string literals (plain and wildcard-pattern), criterion positions and '
+                          'planted in builtins), placed in constant cells, formula string literals (plain and wildcard-pattern), pairs of literals joined by & / CONCATENATE / a cell in between, criterion positions and '
                           'sheet titles; the emitted code of the cell is compared with the model; the generated module is parsed (no workbook identifier '
                           'may be executable), loaded and evaluated (canary untouched, texts evaluate to themselves); non-trivial = text with a quote, '
                           'backslash, newline or wildcard')
@@ -121,8 +135,12 @@ def run(R, tier):
     n = 300 if tier == 'quick' else 4000
     recipes = corpus()
     while len(recipes) < n:
-        kind = R.rng.choice(['constant', 'formula', 'formula', 'criterion'])
+        kind = R.rng.choice(['constant', 'formula', 'formula', 'criterion', 'concat', 'concat_fn', 'concat_cell'])
         rc = {'kind': kind, 'text': gen_text(R.rng)}
+        if kind.startswith('concat'):
+            # two plain literals joined by & / CONCATENATE: no double quote (it would end the literal) and no wildcard (pattern literal) inside
+            clean = lambda t: ''.join(ch for ch in t if ch not in '"?*\n')
+            rc['text'], rc['text2'] = clean(rc['text']), clean(gen_text(R.rng))
         if R.rng.random() < 0.15:
             rc['title'] = gen_text(R.rng) or 'T'
         if kind != 'constant' and ('\n' in rc['text']) and False:
@@ -136,7 +154,7 @@ def run(R, tier):
         if c['coq'] is None:
             R.count(c['key'], True)
             if c['oracle_fail']:
-                R.violation('criterion position: ' + c['oracle_fail'], {'recipe': c['recipe'], 'input_found': True})
+                R.violation('%s position: ' % c['recipe']['kind'] + c['oracle_fail'], {'recipe': c['recipe'], 'input_found': True})
     C.correspond(R, HEADER, 'report', coq_cases, 'c07', 'LiteralToken / PatternToken emission, CellTranslator repr of constants, titles in the class template', shard=150)
     vcases = [dict(c, coq=c['vcoq'], key=('value', c['key'])) for c in cases if c['vcoq'] is not None]
     C.correspond(R, HEADER, 'report_value', vcases, 'c07v', 'value of a cell ="<text>" (LiteralToken payload; _regexp of a PatternToken payload)', shard=150)
